@@ -34,8 +34,17 @@
 //	      processed once, the reference expansion must hold, and every instance is compared with
 //	      the grouping entry of a FRESH value, not with the possibly stale cache of the value under test.
 //
+//	(v)   arbitrary nesting: a deterministic family of deep chains g0 uses g1 uses ... uses gN
+//	      (harness/gen/c06chain.go; quick: N up to 200, thorough: N in {10, 33, 47..50, 65, 100, 200,
+//	      300}), written top-down / bottom-up / shuffled, in one module / across submodules / across
+//	      imported modules with prefixed uses / alternating, some levels wrapping the uses in a
+//	      container, list or choice/case, used from a container, list, top-level uses, rpc input or
+//	      notification (which decides whether the chain is first converted from its top): every site
+//	      must be the full copy without error. All oracles of (ii)-(iv) run on them, and the Lean
+//	      model is compared on every one (it takes a few milliseconds per chain).
+//
 // Inputs: corpus/C06/*.json first (hand-written witnesses with a table of expected Extra / Exts),
-// then the seeded sets. Any failure of (ii), (iii) or (iv) is a "spec" disagreement with verdict "violates".
+// then the deep chains, then the seeded sets. Any failure of (ii), (iii), (iv) or (v) is a "spec" disagreement with verdict "violates".
 package main
 
 import (
@@ -1069,7 +1078,7 @@ func main() {
 		return
 	}
 	res := lib.NewResult("C06", f)
-	n := 8000
+	n := 6000
 	if f.Thorough() {
 		n = 150000
 	}
@@ -1161,6 +1170,56 @@ func main() {
 			distinct.Add(strings.Join(o.Case.Texts, "\x00"))
 		}
 		total += corpusN
+	}
+	// then the deterministic deep-chain family (gen/c06chain.go): g0 uses g1 uses ... uses gN
+	var chainN, chainClean, chainMaxDepth, chainModelCompared int64
+	{
+		var cases []rescorr.Case
+		var specs []gen.C06ChainSpec
+		for i, sp := range gen.C06ChainFamily(f.Thorough()) {
+			gc := gen.C06Chain(sp)
+			kb, _ := json.Marshal(know{Variant: "base", Uses: gc.Uses, Sites: gc.Sites, Expect: gc.Expect, Late: gc.Late, PreConvert: i%2 == 0})
+			cases = append(cases, rescorr.Case{Names: gc.Names, Texts: gc.Texts, Extra: map[string]string{"c06": string(kb), "origin": sp.String()}})
+			specs = append(specs, sp)
+		}
+		for i, o := range rescorr.RunAll(cases, f) {
+			chainN++
+			origin := o.Case.Extra["origin"]
+			if int64(specs[i].N) > chainMaxDepth {
+				chainMaxDepth = int64(specs[i].N)
+			}
+			switch {
+			case o.Crashed:
+				res.AddDisagreement(lib.Disagreement{Kind: "crash", Input: origin, Go: o.CrashMsg, SpecVerdict: "violates",
+					What: origin + ": goyang crashed or hung: " + firstLine(o.CrashMsg), Replay: o.Case})
+				continue
+			case o.Skipped != "":
+				res.AddDisagreement(lib.Disagreement{Kind: "obligation", Input: origin, Go: o.Go.ParseErr, SpecVerdict: "",
+					What: origin + ": not accepted by Modules.Parse (" + o.Go.ParseErr + ")", Replay: o.Case})
+				continue
+			}
+			if len(o.Go.Findings) > 0 {
+				res.AddDisagreement(lib.Disagreement{Kind: "spec", Input: origin, Go: o.Go.Findings, SpecVerdict: "violates",
+					What: origin + ": " + o.Go.Findings[0], Replay: o.Case})
+			}
+			if rescorr.HasErrors(o.Go.Dump) {
+				res.AddDisagreement(lib.Disagreement{Kind: "spec", Input: origin, Go: o.Go.Dump, SpecVerdict: "violates",
+					What: origin + ": a chain of nested uses does not process cleanly: " + o.Go.Dump[0], Replay: o.Case})
+				continue
+			}
+			if o.Outside == "" {
+				chainModelCompared++
+				g := lib.Project(o.Go.Dump, keys, true)
+				md := lib.Project(o.Model, keys, true)
+				if d := rescorr.Diff(g, md); d != "" {
+					res.AddDisagreement(lib.Disagreement{Kind: "correspondence", Input: origin, Go: g, Model: md, SpecVerdict: "",
+						What: origin + ": resolver differs from the model: " + d, Replay: o.Case})
+				}
+			}
+			chainClean++
+			distinct.Add(strings.Join(o.Case.Texts, "\x00"))
+		}
+		total += chainN
 	}
 	const batch = 4000
 	for lo := 0; lo < n; lo += batch {
@@ -1274,7 +1333,8 @@ func main() {
 	}
 	res.Evaluations = total
 	res.DistinctNontrivial = distinct.Len()
-	res.Rule = "corpus/C06 (witnesses of D62 and of the seeded changes C06-c1, C06-d2, C06-e1, C06-g2), then seeded grouping-heavy module sets (harness/gen/c06.go: 1-3 modules, 0-3 submodules each with include chains, groupings at " +
+	res.Rule = "corpus/C06 (witnesses of D62 and of the seeded changes C06-c1, C06-d2, C06-e1, C06-g2), then a deterministic family of deep chains g0 uses g1 ... uses gN (N up to 200 quick, 300 thorough; " +
+		"top-down / bottom-up / shuffled; one module / submodules / imported modules / alternating; five kinds of instantiation site), then seeded grouping-heavy module sets (harness/gen/c06.go: 1-3 modules, 0-3 submodules each with include chains, groupings at " +
 		"module level, in submodules, in containers/lists/operations/notifications and inside groupings, tiny name pools so that shadowing is " +
 		"frequent, submodules whose belongs-to prefix differs from the module's own prefix and which import another module under the " +
 		"module's own prefix or a sibling's belongs-to prefix, nested uses, typedef t and identity idn defined per module so that resolving in the wrong scope shows, every reachable " +
@@ -1288,6 +1348,10 @@ func main() {
 	res.Distribution["copied_nodes_with_3_own_values_and_a_4th_appended"] = capSensitive
 	res.Distribution["base_variants_also_run_with_ToEntry_of_everything_before_Process"] = preConverted
 	res.Distribution["base_variants_also_run_with_an_older_revision_processed_first"] = oldRevs
+	res.Distribution["deep_chain_cases"] = chainN
+	res.Distribution["deep_chain_cases_clean"] = chainClean
+	res.Distribution["deep_chain_cases_compared_with_the_model"] = chainModelCompared
+	res.Distribution["deep_chain_greatest_N"] = chainMaxDepth
 	res.Distribution["corpus_cases"] = corpusN
 	res.Distribution["corpus_cases_clean"] = corpusClean
 	res.Distribution["clean_base_variants"] = clean
